@@ -60,7 +60,7 @@ def check(run, only=None):
         if len(run.samples) < 4:
             run.sample({"value": fid, "expected": v["exp"], "observed": o.get("obs")})
         for why, e, g in judge(v, o):
-            cls = fid.split(":")[0] + (":" + fid.split(":")[1] if fid.startswith(("nilptr", "safe")) else "")
+            cls = fid.split(":")[0] + (":" + fid.split(":")[1] if fid.startswith(("nilptr:", "safe:", "named:")) else "")
             run.mismatch("C15 %s on %s" % (why, cls), v, why, expected=e, observed=g)
     run.traces += len(vecs)
     if only is None:
